@@ -24,6 +24,7 @@ type evState struct {
 	commitT   int64
 	drops     int
 	kidsAcked int
+	kidsDLQ   int
 	kidsDrop  int
 	inBatch   bool // seen in some send.call (any attempt)
 	parentOut bool // parent seen (as P:id) in a send.call that returned ok, or via giveup
@@ -58,6 +59,33 @@ func judge(e *engine, log []Rec, res *Result, wedged, readersFinished bool, outs
 			res.Viol = append(res.Viol, Viol{prop, sig, what, w})
 		}
 	}
+	// focus extracts the records that mention the given events (witness)
+	focus := func(ids ...string) []Rec {
+		want := map[string]bool{}
+		offs := map[[2]int64]bool{}
+		for _, id := range ids {
+			want[id] = true
+			if g := e.byID[id]; g != nil {
+				offs[[2]int64{int64(g.Src), g.Off}] = true
+			}
+		}
+		var out []Rec
+		for _, x := range log {
+			hit := want[x.ID] || offs[[2]int64{int64(x.Src), x.Off}]
+			for _, id := range x.IDs {
+				if want[strings.TrimPrefix(id, "P:")] {
+					hit = true
+				}
+			}
+			if x.K == "act" && x.Res == "timeout" {
+				hit = true
+			}
+			if hit && len(out) < 120 {
+				out = append(out, x)
+			}
+		}
+		return out
+	}
 	st := map[string]*evState{}
 	for id, g := range e.byID {
 		st[id] = &evState{g: g}
@@ -69,6 +97,7 @@ func judge(e *engine, log []Rec, res *Result, wedged, readersFinished bool, outs
 	lists := map[string][]string{}
 	frontier := map[string]int{}
 	lastCommitOff := map[string]int64{}
+	lastCommitDLQ := map[string]bool{}
 	kidParent := func(id string) (string, bool) {
 		if i := strings.Index(id, ".c"); i > 0 {
 			return id[:i], true
@@ -84,6 +113,7 @@ func judge(e *engine, log []Rec, res *Result, wedged, readersFinished bool, outs
 	lastRetSeq := map[string]int64{}
 	dropsOvertaking := 0
 	inflightNow := 0
+	broke := map[string]bool{}
 
 	for _, x := range log {
 		switch x.K {
@@ -162,8 +192,12 @@ func judge(e *engine, log []Rec, res *Result, wedged, readersFinished bool, outs
 			for _, id := range x.IDs {
 				id = strings.TrimPrefix(id, "P:")
 				if pid, isKid := kidParent(id); isKid {
-					if s := st[pid]; s != nil && !x.OK {
-						s.kidsDrop++
+					if s := st[pid]; s != nil {
+						if x.OK {
+							s.kidsDLQ++
+						} else {
+							s.kidsDrop++
+						}
 					}
 					continue
 				}
@@ -176,6 +210,9 @@ func judge(e *engine, log []Rec, res *Result, wedged, readersFinished bool, outs
 				}
 			}
 		case "act":
+			if x.Res == "break" {
+				broke[x.ID] = true
+			}
 			if x.Res == "discard" {
 				if pid, isKid := kidParent(x.ID); isKid {
 					if s := st[pid]; s != nil {
@@ -207,7 +244,14 @@ func judge(e *engine, log []Rec, res *Result, wedged, readersFinished bool, outs
 			}
 			// ---- C01 (a): acknowledged before commit ----
 			if !s.acked && !s.givenUp {
-				add("C01", "commit-before-ack:"+s.where(), fmt.Sprintf("event %s was committed to the input but no output had acknowledged it (state: %s)", id, s.where()), map[string]any{"commit": x, "event": id})
+				where := s.where()
+				if s.g.Kids > 0 && x.Kind == "PARENT" {
+					where = "split-parent-with-unfinished-children"
+					if s.kidsDLQ > 0 {
+						where = "split-parent-with-children-pending-in-dead-queue"
+					}
+				}
+				add("C01", "commit-before-ack:"+where, fmt.Sprintf("event %s was committed to the input but no output had acknowledged it (state: %s)", id, s.where()), map[string]any{"commit": x, "event": id, "trace": focus(id)})
 			}
 			// ---- C01 (b): nothing earlier on the same source+stream is unfinished ----
 			l := lists[s.key]
@@ -218,9 +262,20 @@ func judge(e *engine, log []Rec, res *Result, wedged, readersFinished bool, outs
 			frontier[s.key] = f
 			if f < s.idx {
 				b := st[l[f]]
-				add("C01", "commit-past-unfinished:blocked-by="+b.where(),
+				via := "main"
+				if s.toDLQ {
+					via = "dead-queue"
+				}
+				sig := "commit-past-unfinished:via=" + via + ":blocked-by=" + b.where()
+				if via == "dead-queue" || b.toDLQ || b.kidsDLQ > 0 || s.kidsDLQ > 0 {
+					sig = "commit-past-unfinished:dead-queue-involved"
+				}
+				if b.where() == "held-by-action" && broke[id] {
+					sig += ":overtaker=break"
+				}
+				add("C01", sig,
 					fmt.Sprintf("event %s (offset %d) was committed while the earlier event %s (offset %d) of the same source and stream was neither acknowledged nor dropped (%s)", id, s.g.Off, l[f], b.g.Off, b.where()),
-					map[string]any{"commit": x, "unfinished": l[f], "key": s.key})
+					map[string]any{"commit": x, "unfinished": l[f], "key": s.key, "trace": focus(id, l[f])})
 			}
 			// ---- C02: strictly increasing offsets per source+stream as seen by the input ----
 			ck := fmt.Sprintf("%d/%s", x.Src, x.Stream)
@@ -232,12 +287,19 @@ func judge(e *engine, log []Rec, res *Result, wedged, readersFinished bool, outs
 				if s.toDLQ {
 					via = "dead-queue"
 				}
-				add("C02", "commit-out-of-order:late-event-via="+via,
-					fmt.Sprintf("source/stream %s: offset %d committed after offset %d (event %s arrived through the %s output)", ck, x.Off, last, id, via),
-					map[string]any{"commit": x})
+				sig := "commit-out-of-order:late-event-via=" + via
+				if s.toDLQ || lastCommitDLQ[ck] {
+					// one of the two events left the main batcher's commit sequence
+					// through the dead queue
+					sig = "commit-out-of-order:dead-queue-involved"
+				}
+				add("C02", sig,
+					fmt.Sprintf("source/stream %s: offset %d committed after offset %d (event %s arrived through the %s output; the newer one through dead queue: %v)", ck, x.Off, last, id, via, lastCommitDLQ[ck]),
+					map[string]any{"commit": x, "trace": focus(id)})
 			}
 			if x.Off > lastCommitOff[ck] {
 				lastCommitOff[ck] = x.Off
+				lastCommitDLQ[ck] = s.toDLQ
 			}
 			if !cs.Spread && x.Stream != streamName(s.g.Stream) {
 				add("C02", "commit-wrong-stream", fmt.Sprintf("event %s read on stream %q was committed on stream %q", id, streamName(s.g.Stream), x.Stream), x)
